@@ -8,6 +8,7 @@ pub mod c14;
 pub mod c15;
 pub mod c16;
 pub mod c17;
+pub mod pipe;
 pub mod replay;
 pub mod rules;
 pub mod sanit;
